@@ -370,8 +370,15 @@ func ruleGFPolyArith(c *Ctx) {
 		} else {
 			// large / small: the two complementary phis
 			var large, small ssa.Value
+			inPlace := false
 			if sl, ok := cp.Common().Args[1].(*ssa.Slice); ok {
 				large = sl.X
+				inPlace = sl.High == nil && sl.Low == nil
+			} else if _, isSl := cp.Common().Args[1].Type().Underlying().(*types.Slice); isSl && cp.Common().Args[0] == ssa.Value(mk) {
+				// the longer list copied as a whole; the shorter one is then folded into the copy's tail
+				// (result[q] still holds large[q] when position q is combined - every q is written once)
+				large = cp.Common().Args[1]
+				inPlace = true
 			}
 			var xorCall *ssa.Call
 			for _, call := range callsTo(fn, c.P.Func("utils.(*GaloisField).AddOrSub")) {
@@ -389,6 +396,14 @@ func ruleGFPolyArith(c *Ctx) {
 					return nil
 				}
 				a0, a1 := baseOf(xorCall.Common().Args[1]), baseOf(xorCall.Common().Args[2])
+				if inPlace {
+					if a0 == ssa.Value(mk) {
+						a0 = large
+					}
+					if a1 == ssa.Value(mk) {
+						a1 = large
+					}
+				}
 				for _, v := range []ssa.Value{a0, a1} {
 					if v != nil && v != large {
 						small = v
@@ -402,6 +417,10 @@ func ruleGFPolyArith(c *Ctx) {
 					checkCases(c, R, "utils.(*GFPoly).AddOrSubstract/small", cp.Pos(), sc, []edgeSpec{{"gp.Coefficients", "len(gp.Coefficients) <= len(other.Coefficients)"}, {"other.Coefficients", "len(gp.Coefficients) > len(other.Coefficients)"}})
 					n.Bind[large], n.Bind[small] = "L", "S"
 					c.expectPoly(R, "utils.(*GFPoly).AddOrSubstract/result-len", mk.Pos(), n, mk.Len, "len(L)")
+					if inPlace {
+						n.Bind[mk] = "L" // position q of the copy is large[q] until it is combined
+						defer delete(n.Bind, mk)
+					}
 					c.Check(R, "utils.(*GFPoly).AddOrSubstract/copy-dst", cp.Pos(), cp.Common().Args[0] == ssa.Value(mk), "copy into the result", n.Norm(cp.Common().Args[0]).String())
 					if sl, ok := cp.Common().Args[1].(*ssa.Slice); ok && sl.High != nil {
 						c.expectPoly(R, "utils.(*GFPoly).AddOrSubstract/prefix-len", cp.Pos(), n, sl.High, "len(L) - len(S)")
